@@ -23,6 +23,7 @@ import (
 	"github.com/snower/slock/simrt/snet"
 	"github.com/snower/slock/simrt/sos"
 	"github.com/snower/slock/simrt/ssched"
+	"github.com/snower/slock/simrt/ssync"
 )
 
 type FollowerOutage struct {
@@ -376,6 +377,31 @@ func runRepl(w *World) {
 			}
 			w.logf("DISK #%d n%d %s %s %s [%s]%s", e.Idx, e.Node, e.Op, filepath.Base(e.Path), filepath.Base(e.Path2), e.Task, describeAofWrite(e))
 		}
+	}
+	if w.keepLog {
+		// debugging aid: every change of a follower's lock state, with the path that made it
+		last := map[*PriorityMutex]string{}
+		ssync.OnAnyRelease = func(m *ssync.Mutex) {
+			node := ssched.CurrentNode()
+			if node < 100 {
+				return
+			}
+			fi := (node - 100) / 10
+			if fi >= len(rr.fnodes) || rr.fnodes[fi] == nil || rr.fnodes[fi].sl == nil || rr.fnodes[fi].id != node {
+				return
+			}
+			pm := shardOf(rr.fnodes[fi].sl, m)
+			if pm == nil {
+				return
+			}
+			sig := shardLockSig(rr.fnodes[fi].sl, pm)
+			if sig != last[pm] {
+				cls, _ := stackClass()
+				w.logf("FSTATE n%d [%s] %s => %s", node, cls, last[pm], sig)
+				last[pm] = sig
+			}
+		}
+		defer func() { ssync.OnAnyRelease = nil }()
 	}
 	ssched.SpawnOn(0, "repl-driver", func() {
 		defer func() { rr.done = true }()
